@@ -443,6 +443,10 @@ each container rule under `Rules != nil` alone (`wrapArray` / `wrapMap`); key fo
 uuid / the id62 pattern / the declared pattern / nothing (`keyStringC`) -/
 theorem C12_src_containers_and_keys : containerGuardFacts = true ∧ keyFormatFacts = true := by decide
 
+/-- the range check of integer bounds (`checkIntegerBound`, 33463c1): per format the spelled
+interval test agrees with the model's `boundFits` around every boundary -/
+theorem C12_src_bound_range_check : boundCheckFacts = true := by decide
+
 /-- every rule kind has a branch: each member of `schema.Field.type` is a case of `buildField`
 (`buildProperty` for array / map), and unknown members are errors -/
 theorem C12_src_branches : everyMemberHasWriterBranch = true ∧ writerDefaultsPresent = true := by decide
